@@ -91,7 +91,7 @@ func genC06(t *rapid.T, tier string) (*World, any) {
 	w := NewWorld()
 	p := &C06Params{}
 	feat := map[string]bool{}
-	endings := []string{"s", "es", "t", "x", "tes", "u"}
+	endings := []string{"s", "es", "t", "x", "tes", "u", "e", "le"}
 	// the include file F
 	defs := map[string]string{}
 	var fLines []string
@@ -201,6 +201,13 @@ func genC06(t *rapid.T, tier string) (*World, any) {
 			feat["multi-exclude"] = true
 		}
 	}
+	// for a plain include, F may be a block: the pairs rewrite the entries inside it, never the directive lines
+	blockF := ""
+	if p.Kind == "include" && chance(t, 25, "blockF") {
+		blockF = pick(t, []string{"##!> cmdline unix", "##!> cmdline windows", "##!> assemble"}, "blockkind")
+		w.Put("crs/regex-assembly/include/words.ra", joinLines(append(append([]string{blockF}, fLines...), "##!<")))
+		feat["block-in-include"] = true
+	}
 	// suffix pairs
 	var pairs []suffixPair
 	pairText := ""
@@ -253,7 +260,11 @@ func genC06(t *rapid.T, tier string) (*World, any) {
 			fEntries = append(fEntries, pr.Old)
 			seenEntry[pr.Old] = true
 			universe[pr.Old] = true
-			w.Put("crs/regex-assembly/include/words.ra", joinLines(fLines))
+			if blockF != "" {
+				w.Put("crs/regex-assembly/include/words.ra", joinLines(append(append([]string{blockF}, fLines...), "##!<")))
+			} else {
+				w.Put("crs/regex-assembly/include/words.ra", joinLines(fLines))
+			}
 			feat["entry-is-key"] = true
 		}
 	}
@@ -353,7 +364,9 @@ func genC06(t *rapid.T, tier string) (*World, any) {
 		p.Expect = append(p.Expect, []string{e})
 		universe[e] = true
 	}
-	if !feat["duplicate"] && !competing {
+	if blockF != "" {
+		// membership only: a block inside the include is grouped differently from entries typed in place
+	} else if !feat["duplicate"] && !competing {
 		p.Typed = build(append(append([]string{}, typedWords...), twinTyped...))
 	} else if feat["duplicate"] && !competing {
 		// positions of every distinct surviving entry
